@@ -1,4 +1,5 @@
 import Decstr.Proofs.ExecApi
+import Decstr.Proofs.ExecLazy
 import Decstr.Props.C05
 /-!
 # Proofs.ExecApi2 — the public operations: decimal → integer, decimal → binary float, integer / binary float → decimal,
@@ -29,42 +30,147 @@ theorem intFromAsciiC_eq (c : Bool) (I : IntTy) (neg : Bool) (ds : List Nat) (hd
         · rfl
         · exact ih hds' v
 
-theorem toIntCoreC_eq (T : Ty) (c : Bool) (I : IntTy) (neg : Bool) (digits : List Nat) (hds : ∀ d ∈ digits, 48 ≤ d)
-    (exponent : Int) (precision : Nat) (fin : Bool) :
-    toIntCoreC T c I neg digits exponent precision fin = .ok (toIntCore T I neg digits exponent precision fin) := by
+/-- the eager run of the declet iterator from the start state of the stream -/
+theorem decodeGo_start (c : Bool) (b : Buf) (n : Nat) (hn : 0 < n) (hl : b.len = 4 * n) :
+    decodeDecletsGoC c b ((b.trailingBits + 9) / 10) b.trailingBits = .ok (decodeDeclets b) := by
+  have h := decodeDecletsC_eq c b n hn hl
+  unfold decodeDecletsC at h
+  rw [trailingBitsC_eq c b n hn hl, bind_ok] at h
+  exact h
+
+/-- on a well-formed buffer the digit stream yields all `precision` digits, and no pull reaches a panic site -/
+theorem yields_allDigits (c : Bool) (b : Buf) (n : Nat) (h : WF b n) (m : Nat) :
+    Yields c b (Digits.start [m + 48] b.trailingBits) (allDigits b m) :=
+  yields_start c b [m + 48] _ _ (decodeGo_start c b n h.pos h.len)
+
+theorem allDigits_ge (b : Buf) (n : Nat) (h : WF b n) (m : Nat) : ∀ d ∈ allDigits b m, 48 ≤ d := by
+  intro d hd
+  rcases List.mem_cons.1 hd with rfl | hd
+  · omega
+  · exact (Decstr.Proofs.DecodeAux.decodeDeclets_flatten_ascii b n h d hd).1
+
+/-- `try_from_ascii` on a stream that yields ASCII digits: the pure model's value; the stream is left behind the digits
+    taken -/
+theorem tryFromDigitsC_eq (c : Bool) (b : Buf) (I : IntTy) (neg : Bool) (n : Nat) (it : Digits) (ds : List Nat)
+    (hy : Yields c b it ds) (hds : ∀ d ∈ ds, 48 ≤ d) :
+    ∃ it', tryFromDigitsC c b I neg n it =
+        .ok (if (neg && !I.signed) = true then none else intFromAscii I neg (ds.take n) 0, it') ∧
+      ((neg && !I.signed) = false → ∀ v, intFromAscii I neg (ds.take n) 0 = some v → Yields c b it' (ds.drop n)) := by
+  unfold tryFromDigitsC
+  by_cases hs : (neg && !I.signed) = true
+  · exact ⟨it, by rw [if_pos hs, if_pos hs], fun h => by rw [hs] at h; cases h⟩
+  · have hs' : (neg && !I.signed) = false := by simpa using hs
+    obtain ⟨it', h1, h2⟩ := intFromDigitsC_yields c b I neg hs' n ds it 0 hy
+    have he := intFromAsciiC_eq c I neg (ds.take n) (fun d hd => hds d (List.mem_of_mem_take hd)) 0
+    refine ⟨it', ?_, fun _ v hv => h2 v (by rw [he, hv])⟩
+    rw [if_neg hs, if_neg hs, h1, he]
+    rfl
+
+/-- the arms of `decimal_to_int` on the digit stream of a well-formed buffer -/
+theorem toIntCoreC_eq (T : Ty) (c : Bool) (b : Buf) (n : Nat) (h : WF b n) (I : IntTy) (exponent : Int) (msd : Nat)
+    (hmsd : msd ≤ 9) :
+    toIntCoreC T c b I exponent msd =
+      .ok (toIntCore T I (isSignNegative b) (allDigits b msd) exponent b.precision (isFinite b)) := by
+  have hn := h.pos
+  have hl := h.len
+  have hlen : 0 < b.len := by omega
+  have hy := yields_allDigits c b n h msd
+  have hds := allDigits_ge b n h msd
+  have hbound := yields_length_le c b _ _ hy
   unfold toIntCoreC toIntCore
-  simp only []
-  split
-  · rfl
-  · split
-    · exact intFromAsciiC_eq c I neg digits hds 0
-    · split
-      · rw [intFromAsciiC_eq c I neg digits hds 0]
-        cases intFromAscii I neg digits 0 <;> rfl
-      · split
-        · rename_i hlt
-          have hlt' : exponent.natAbs < precision := by simp at hlt; exact hlt.2
-          rw [subUsize_ok (by omega)]
+  simp only [trailingBitsC_eq c b n hn hl, bcdToAsciiC_eq c msd hmsd, isSignNegativeC_eq c b hlen, precisionC_eq c b n hn hl,
+    isFiniteC_eq c b hlen, bind_ok]
+  generalize (T.expIsI32 || (decide (i32Min ≤ exponent) && decide (exponent ≤ i32Max))) = inI32
+  generalize isSignNegative b = neg
+  generalize isFinite b = fin
+  generalize b.precision = p
+  generalize Digits.start [msd + 48] b.trailingBits = it0 at hy hbound ⊢
+  generalize allDigits b msd = ds at hy hds hbound ⊢
+  have hnone : (neg && !I.signed) = true → intFromAscii I neg [48] 0 = none := by
+    intro hs; simp [intFromAscii, hs]
+  by_cases h12 : (inI32 && (decide (exponent = 0) || decide (exponent > 0))) = true
+  · -- `Some(0)` and `Some(exponent) if exponent > 0`
+    rw [if_pos h12]
+    obtain ⟨it', ht, -⟩ := tryFromDigitsC_eq c b I neg (it0.bound + 1) it0 ds hy hds
+    rw [ht, bind_ok, List.take_of_length_le (by omega)]
+    simp only [Bool.and_eq_true, Bool.or_eq_true, decide_eq_true_eq] at h12
+    obtain ⟨hi, he⟩ := h12
+    subst hi
+    by_cases hs : (neg && !I.signed) = true
+    · simp only [hs, if_true]
+    · simp only [hs, Bool.false_eq_true, if_false, Bool.true_and, decide_eq_true_eq]
+      by_cases he0 : exponent = 0
+      · simp only [he0, if_true]
+        cases intFromAscii I neg ds 0 <;> rfl
+      · have hpos : exponent > 0 := by omega
+        simp only [he0, hpos, if_true, if_false]
+        cases intFromAscii I neg ds 0 <;> rfl
+  · rw [if_neg h12]
+    have h1 : ¬ (inI32 && decide (exponent = 0)) = true := by
+      intro hh; apply h12
+      simp only [Bool.and_eq_true, Bool.or_eq_true, decide_eq_true_eq] at hh ⊢
+      exact ⟨hh.1, Or.inl hh.2⟩
+    have h2 : ¬ (inI32 && decide (exponent > 0)) = true := by
+      intro hh; apply h12
+      simp only [Bool.and_eq_true, Bool.or_eq_true, decide_eq_true_eq] at hh ⊢
+      exact ⟨hh.1, Or.inr hh.2⟩
+    rw [if_neg h1, if_neg h2]
+    by_cases h3 : (inI32 && decide (exponent.natAbs < p)) = true
+    · -- `Some(exponent) if |exponent| < precision`
+      rw [if_pos h3]
+      simp only [Bool.and_eq_true, decide_eq_true_eq] at h3
+      obtain ⟨hi, hlt⟩ := h3
+      subst hi
+      simp only [if_true, bind_ok, if_pos hlt]
+      rw [subUsize_ok (by omega), bind_ok]
+      obtain ⟨it', ht, hrest⟩ := tryFromDigitsC_eq c b I neg (p - exponent.natAbs) it0 ds hy hds
+      rw [ht, bind_ok]
+      by_cases hs : (neg && !I.signed) = true
+      · simp only [hs, if_true]
+      · simp only [hs, Bool.false_eq_true, if_false]
+        have hs' : (neg && !I.signed) = false := by simpa using hs
+        cases hv : intFromAscii I neg (List.take (p - exponent.natAbs) ds) 0 with
+        | none => rfl
+        | some i =>
+          have hy' := hrest hs' i hv
           simp only []
-          rw [intFromAsciiC_eq c I neg _ (fun d hd => hds d (List.mem_of_mem_take hd)) 0]
-          cases intFromAscii I neg (List.take (precision - exponent.natAbs) digits) 0 <;> rfl
-        · split
-          · exact intFromAsciiC_eq c I neg [48] (by simp) 0
-          · rfl
+          rw [allZeroC_yields c b _ _ it' hy' (by have := yields_length_le c b _ _ hy'; omega), bind_ok]
+    · -- `_`
+      rw [if_neg h3]
+      have harm : (if inI32 = true then (Except.ok (if exponent.natAbs < p then some p else none) : Chk (Option Nat))
+          else Except.ok none) = Except.ok none := by
+        cases inI32 with
+        | false => rfl
+        | true =>
+          simp only [Bool.true_and, decide_eq_true_eq] at h3
+          simp only [if_true, if_neg h3]
+      rw [harm, bind_ok]
+      simp only []
+      cases fin with
+      | false =>
+        simp only [Bool.false_eq_true, if_false, Bool.false_and]
+        split <;> rfl
+      | true =>
+        simp only [if_true, Bool.true_and]
+        rw [allZeroC_yields c b _ ds it0 hy (by omega), bind_ok]
+        cases hz : ds.all (fun x => x == 48) with
+        | false =>
+          simp only [Bool.false_eq_true, if_false]
+          split <;> rfl
+        | true =>
+          simp only [if_true]
+          rw [intFromAsciiC_eq c I neg [48] (by simp) 0]
+          by_cases hs : (neg && !I.signed) = true
+          · rw [if_pos hs, hnone hs]
+          · rw [if_neg hs]
 
 /-- **`to_i8 … to_u128`**: for every well-formed buffer, no panic site in either profile -/
 theorem toIntC_eq (T : Ty) (c : Bool) (b : Buf) (n : Nat) (h : WF b n) (hT : T.expIsI32 = true → n ≤ 5) (I : IntTy) :
     toIntC T c b I = .ok (toInt T b I) := by
-  have hn := h.pos
-  have hl := h.len
-  have hlen : 0 < b.len := by omega
   have hr : T.expRep.isI32 = true → n ≤ 5 := by rw [expRep_isI32]; exact hT
   unfold toIntC toInt
-  rw [decodeCombinationFiniteC_eq T.expRep c b n h hr, bind_ok, bcdToAsciiC_eq c _ (msd_le b n h), bind_ok,
-    decodeDecletsC_eq c b n hn hl, bind_ok, isSignNegativeC_eq c b hlen, bind_ok, precisionC_eq c b n hn hl, bind_ok,
-    isFiniteC_eq c b hlen, bind_ok]
-  obtain ⟨_, ha⟩ := allDigits_ascii b n h
-  exact toIntCoreC_eq T c I _ _ (fun d hd => (ha d hd).1) _ _ _
+  rw [decodeCombinationFiniteC_eq T.expRep c b n h hr, bind_ok]
+  exact toIntCoreC_eq T c b n h I _ _ (msd_le b n h)
 
 /-! ## decimal → binary float -/
 
@@ -118,7 +224,7 @@ theorem ffragC_eq (c : Bool) (text frag : List Nat) (h : text.length ≤ scratch
 /-- the scratch text of `num.rs::parse_ascii`: every store into the 25-byte array is preceded by a capacity test -/
 theorem floatTextC_eq (c : Bool) (neg : Bool) (digits : List Nat) (exponent : Int) :
     floatTextC c neg digits exponent = .ok (floatText neg digits exponent) := by
-  unfold floatTextC floatText
+  unfold floatTextC floatExpC floatText
   simp only []
   generalize hsig : (if (List.dropWhile (fun x => x == 48) digits).isEmpty = true then [48]
     else List.dropWhile (fun x => x == 48) digits) = sig
@@ -183,26 +289,35 @@ theorem toFloatC_eq (T : Ty) (c : Bool) (b : Buf) (n : Nat) (h : WF b n) (hT : T
   have hlen : 0 < b.len := by omega
   have hr : T.expRep.isI32 = true → n ≤ 5 := by rw [expRep_isI32]; exact hT
   unfold toFloatC toFloat
-  rw [isFiniteC_eq c b hlen, bind_ok, isSignNegativeC_eq c b hlen, bind_ok]
+  rw [isFiniteC_eq c b hlen, bind_ok]
   cases hfin : isFinite b with
   | true =>
     simp only [if_true]
-    rw [decodeCombinationFiniteC_eq T.expRep c b n h hr, bind_ok, bcdToAsciiC_eq c _ (msd_le b n h), bind_ok,
-      decodeDecletsC_eq c b n hn hl, bind_ok, floatTextC_eq, bind_ok]
+    rw [decodeCombinationFiniteC_eq T.expRep c b n h hr, bind_ok, trailingBitsC_eq c b n hn hl, bind_ok,
+      isSignNegativeC_eq c b hlen, bind_ok, bcdToAsciiC_eq c _ (msd_le b n h), bind_ok,
+      floatTextLazyC_yields c b _ _ _ _ (yields_allDigits c b n h _), floatTextC_eq, bind_ok]
     rfl
   | false =>
     simp only [Bool.false_eq_true, if_false]
     rw [isInfiniteC_eq c b hlen, bind_ok]
     cases hinf : isInfinite b with
-    | true => simp only [if_true]
+    | true =>
+      simp only [if_true]
+      rw [isSignNegativeC_eq c b hlen, bind_ok]
     | false =>
       simp only [Bool.false_eq_true, if_false]
       have hnan : isNan b = true := by
         have := Decstr.Props.C08.C08_partition b
         simp_all
-      rw [isNanC_eq c b hlen, bind_ok, dbg_pos hnan, bind_ok, decodeDecletsC_eq c b n hn hl, bind_ok,
-        intFromAsciiC_eq c _ false _ (fun d hd => (Decstr.Proofs.DecodeAux.decodeDeclets_flatten_ascii b n h d hd).1) 0, bind_ok,
-        isSignalingNanC_eq c b hlen, bind_ok]
+      rw [isNanC_eq c b hlen, bind_ok, dbg_pos hnan, bind_ok, trailingBitsC_eq c b n hn hl, bind_ok]
+      have hy : Yields c b (Digits.start [] b.trailingBits) (decodeDeclets b).flatten :=
+        yields_start c b [] _ _ (decodeGo_start c b n hn hl)
+      obtain ⟨it', ht, -⟩ := tryFromDigitsC_eq c b ⟨true, B.width⟩ false ((Digits.start [] b.trailingBits).bound + 1) _ _ hy
+        (fun d hd => (Decstr.Proofs.DecodeAux.decodeDeclets_flatten_ascii b n h d hd).1)
+      have hb := yields_length_le c b _ _ hy
+      rw [ht, bind_ok, isSignNegativeC_eq c b hlen, bind_ok, isSignalingNanC_eq c b hlen, bind_ok,
+        List.take_of_length_le (by omega)]
+      rfl
 
 /-- **`Bitstring32::to_f64`** (the infallible one): the `expect` is unreachable -/
 theorem toFloatInfallibleC_b32 (c : Bool) (b : Buf) (h : WF b 1) :
